@@ -74,8 +74,8 @@ PLANS = {
         steps=[
             mc("mutate", "MCMutate", "MCMutate_quick.cfg", "MCMutate_thorough.cfg", replay=("slice", "verdict"), workers=12),
             mc("codec", "MCCodec", "MCCodec_quick.cfg", "MCCodec_thorough.cfg", replay=("slice", "enc")),
-            mc("session", "MCSession", "MCSession_quick.cfg", "MCSession_thorough.cfg", replay=("slice", "session")),
-            mc("junk", "MCJunk", "MCJunk_quick.cfg", "MCJunk_thorough.cfg", replay=("slice", "verdict", "verdict,search")),
+            mc("session", "MCSession", "MCSession_quick.cfg", "MCSession_thorough.cfg", replay=("slice", "session", "@parser")),
+            mc("junk", "MCJunk", "MCJunk_quick.cfg", "MCJunk_thorough.cfg", replay=("slice", "verdict", "verdict,@parser")),
             rec("slice", "mut", "TraceSlice", 1200, 30000, 3, 10),
             rec("build", "layout", "TraceBuild", 1500, 40000, 1, 4),
         ],
